@@ -129,3 +129,9 @@ Print Assumptions opendal_calls_as_modelled.
 Theorem opendal_layers_passthrough : forallb passthrough od_layers = true.
 Proof. exact od_layers_lemma. Qed.
 Print Assumptions opendal_layers_passthrough.
+
+(* The directory backend's read_full/read_partial/list/list_with_size/remove make exactly the
+   file-system calls the model assumes, in that order (write_bytes: write_order_as_modelled). *)
+Theorem local_calls_as_modelled : forall f, lb_calls f = modelled_lb_calls f.
+Proof. exact lb_calls_lemma. Qed.
+Print Assumptions local_calls_as_modelled.
